@@ -1238,6 +1238,23 @@ func (e *specEnv) goCall(n *ast.CallExpr) (SVal, error) {
 	var args []Val
 	switch f := n.Fun.(type) {
 	case *ast.SelectorExpr:
+		// package-qualified function pkg.F(...)
+		if id, ok := f.X.(*ast.Ident); ok && e.pkg != nil {
+			if _, bound := e.vars[id.Name]; !bound {
+				if _, isLocal := e.tryLocal(id.Name); !isLocal {
+					for _, imp := range e.pkg.Imports() {
+						if imp.Name() == id.Name {
+							if obj, ok := imp.Scope().Lookup(f.Sel.Name).(*types.Func); ok {
+								fn = fx.eng.prog.FuncValue(obj)
+							}
+						}
+					}
+				}
+			}
+		}
+		if fn != nil {
+			break
+		}
 		// method call x.M(...)
 		recv, err := e.eval(f.X)
 		if err != nil {
